@@ -1,5 +1,6 @@
 (* Pinned statements for C15: a changed statement or a new axiom fails the check. *)
 From SwimV Require Import Model.ReconText Proofs.ReconTextProofs Props.C15.
+From SwimV Require Import Model.ReconNum Proofs.ReconNumProofs.
 Open Scope N_scope.
 Check (C15_printed_texts_compare_as_texts) : (forall t1 t2, text_key_eq (write_string_literal t1) (write_string_literal t2) = str_eqb t1 t2).
 Print Assumptions C15_printed_texts_compare_as_texts.
@@ -7,3 +8,9 @@ Check (C15_quoted_and_printed_agree) : (forall t, text_key_eq (quoted t) (write_
 Print Assumptions C15_quoted_and_printed_agree.
 Check (C15_key_of_printed_text) : (forall t, key_token (write_string_literal t) = KText t).
 Print Assumptions C15_key_of_printed_text.
+Check (C15_number_equality) : (forall a b, well_kinded a = true -> well_kinded b = true -> nv_eq a b = (nz a =? nz b)%Z).
+Print Assumptions C15_number_equality.
+Check (C15_equal_numbers_hash_alike) : (forall a b, well_kinded a = true -> well_kinded b = true -> nv_eq a b = true -> nv_hash_key a = nv_hash_key b).
+Print Assumptions C15_equal_numbers_hash_alike.
+Check (C15_integer_keys_compare_by_number) : (forall a b x y, int_of_text a = Some x -> int_of_text b = Some y -> nv_eq x y = (nz x =? nz y)%Z /\ (nv_eq x y = true -> nv_hash_key x = nv_hash_key y)).
+Print Assumptions C15_integer_keys_compare_by_number.
